@@ -614,6 +614,20 @@ class PopulationBalanceModel:
         indAbove = self._netFlux[1:]*dt > psd
         self._netFlux[1:][indAbove] = psd[indAbove] / dt
 
+        #The two limits above act on each face separately, but a bin can lose particles through both faces
+        #   (growth rate changing sign inside the bin: left face negative, right face positive)
+        #   So limit the total outflow of every bin: (max(-J_i, 0) + max(J_i+1, 0)) * dt <= PSD_i
+        #   Each face is the outflow face of exactly one bin (J < 0: bin on its right, J > 0: bin on its left),
+        #   so scaling the outflow faces of a bin does not touch the outflow of its neighbors
+        outLeft = np.maximum(-self._netFlux[:-1], 0)
+        outRight = np.maximum(self._netFlux[1:], 0)
+        outflow = outLeft + outRight
+        indOut = outflow*dt > psd
+        scale = np.ones(len(psd))
+        scale[indOut] = psd[indOut] / (outflow[indOut]*dt)
+        self._netFlux[:-1][outLeft > 0] *= scale[outLeft > 0]
+        self._netFlux[1:][outRight > 0] *= scale[outRight > 0]
+
         dXdt = (self._netFlux[:-1] - self._netFlux[1:])
 
         #Find size class for nucleated particles
